@@ -1,6 +1,7 @@
 package checks
 
 import (
+	"errors"
 	"fmt"
 	"math"
 	"net"
@@ -8,6 +9,7 @@ import (
 	"sort"
 	"strings"
 	"sync"
+	"syscall"
 	"time"
 
 	"github.com/DataDog/datadog-traceroute/packets"
@@ -60,8 +62,10 @@ type simEnv struct {
 	isn    uint32
 	// arrived at the sack destination (TTL set), in arrival order
 	arrived []int
-	handle  *simnet.Handle
-	closed  bool
+	// source-port reservation observed at the first probe (udp, syn)
+	portChecked, portHeld, portReported bool
+	handle                              *simnet.Handle
+	closed                              bool
 }
 
 func oddUS(d time.Duration) time.Duration {
@@ -142,12 +146,21 @@ func (e *simEnv) onEmit(h *simnet.Handle, em *simnet.Emission) {
 		return
 	}
 	pr := probeFromEmission(e.spec.V, em)
-	if len(e.probes) == 0 {
+	firstProbe := len(e.probes) == 0
+	if firstProbe {
 		e.local, e.lport, e.echoID = em.Pkt.Src, em.Pkt.SrcPort, em.Pkt.EchoID
 	}
 	e.probes = append(e.probes, pr)
 	m := e.model
 	e.mu.Unlock()
+	if firstProbe && (e.spec.V.Proto == "udp" || e.spec.V.Proto == "syn") {
+		// the source port is what separates this run's flow from every other run to the same target: it must be
+		// held by an open socket of this process for as long as probes carry it (C11)
+		held := portHeld(e.spec.V.Proto, em.Pkt.Src, em.Pkt.SrcPort)
+		e.mu.Lock()
+		e.portChecked, e.portHeld = true, held
+		e.mu.Unlock()
+	}
 	if m == nil {
 		return
 	}
@@ -356,6 +369,15 @@ func (e *simEnv) judge(res drive.Result, tag string) (flow *refmatch.Flow, js []
 	f := e.flow()
 	js = e.reads(f)
 	v := e.spec.V
+	e.mu.Lock()
+	if e.portChecked && !e.portHeld && !e.portReported {
+		e.portReported = true
+		c.Violate("C11", "source-port-not-reserved/"+v.Name, fmt.Sprintf("%s: probes carry source port %d but no socket of the process holds that port while the run is sending (another run or process can be given the same port)", tag, e.lport), nil)
+	}
+	if e.portChecked {
+		c.Count("source_port_reservations_checked", 1)
+	}
+	e.mu.Unlock()
 	aborts := false
 	decisive := !v.Serial
 	for i := range js {
@@ -761,4 +783,28 @@ func simplePath(v refmatch.Variant, flow, routers int, reach bool, base time.Dur
 		m.destDelay = base * time.Duration(routers+1)
 	}
 	return m
+}
+
+// portHeld reports whether the local port is taken: it tries to bind the same address and port itself (an open UDP
+// socket for UDP runs, a listener for SYN runs - the tool reserves its source port that way). The kernel's bind
+// lookup is exact; scanning /proc/net/udp is not (entries are missed while other sockets come and go).
+func portHeld(proto string, local netip.Addr, port uint16) bool {
+	if proto == "syn" {
+		l, err := net.Listen("tcp", fmt.Sprintf(":%d", port))
+		if err != nil {
+			return errors.Is(err, syscall.EADDRINUSE)
+		}
+		l.Close()
+		return false
+	}
+	network := "udp4"
+	if local.Is6() && !local.Is4In6() {
+		network = "udp6"
+	}
+	c, err := net.ListenUDP(network, net.UDPAddrFromAddrPort(netip.AddrPortFrom(local, port)))
+	if err != nil {
+		return errors.Is(err, syscall.EADDRINUSE)
+	}
+	c.Close()
+	return false
 }
